@@ -90,6 +90,9 @@ func ruleC17a(c *Ctx) {
 		})
 		seenOpt, seenOther := false, false
 		for _, r := range returnsOf(fn) {
+			if r.Block().Comment == "recover" {
+				continue // the exit taken after a recovered panic of a function with defers: not a path of the filter's logic
+			}
 			cls := ""
 			for f := range facts[r.Block()] {
 				if t, isOpt := methodIsOptions(f); t {
@@ -193,14 +196,61 @@ func ruleC17b(c *Ctx) {
 		}
 		c.check(a == b, name, "Allow and Access-Control-Allow-Methods carry the same list", p.pos(fn.Pos()), "one SSA value feeds both headers", "the two headers are built from different values")
 		okSrc := false
-		if call, ok := a.(*ssa.Call); ok && calleeName(&call.Call) == "strings.Join" {
-			if inner, ok := strip(call.Call.Args[0]).(*ssa.Call); ok && inner.Call.StaticCallee() != nil && inner.Call.StaticCallee().Name() == "computeAllowedMethods" {
+		// the call that computes the list for this request on this container, behind value v
+		listCall := func(v ssa.Value) bool {
+			for _, src := range p.sources(v, provDefault) {
+				inner, ok := strip(src).(*ssa.Call)
+				if !ok || inner.Call.StaticCallee() == nil || inner.Call.StaticCallee().Name() != "computeAllowedMethods" {
+					continue
+				}
 				if len(inner.Call.Args) == 2 && rq != nil && p.sameValue(inner.Call.Args[1], rq) && isReceiverOrCellOf(p, inner.Call.Args[0], fn) {
-					okSrc = true
+					return true
 				}
 			}
+			return false
 		}
-		c.check(okSrc, name, "the list is computed for this request on this container", p.pos(fn.Pos()), "strings.Join(c.computeAllowedMethods(req), ...)", "the list is not the allowed methods of this request's URL on the filter's container")
+		if call, ok := a.(*ssa.Call); ok && calleeName(&call.Call) == "strings.Join" {
+			okSrc = listCall(call.Call.Args[0])
+		}
+		// joined by hand in a local buffer: everything written into it is an element of the list or a constant
+		if call, ok := a.(*ssa.Call); ok && (calleeName(&call.Call) == "(*bytes.Buffer).String" || calleeName(&call.Call) == "(*strings.Builder).String") {
+			buf := call.Call.Args[0]
+			nElem, other := 0, false
+			for _, g := range withClosures(fn) {
+				eachInstr(g, func(i ssa.Instruction) {
+					cc := callCommon(i)
+					if cc == nil || len(cc.Args) < 2 || !p.sameVar(cc.Args[0], buf) {
+						return
+					}
+					switch n := calleeName(cc); {
+					case strings.HasSuffix(n, ").WriteString") || strings.HasSuffix(n, ").Write"):
+						v := cc.Args[1]
+						if _, isC := constStr(v); isC {
+							return
+						}
+						elem := false
+						for _, src := range p.sources(v, provDefault) {
+							if u, ok := strip(src).(*ssa.UnOp); ok && u.Op == token.MUL {
+								if ia, ok := u.X.(*ssa.IndexAddr); ok && listCall(ia.X) {
+									elem = true
+								}
+							}
+						}
+						if elem {
+							nElem++
+						} else {
+							other = true
+						}
+					case strings.HasSuffix(n, ").WriteByte") || strings.HasSuffix(n, ").WriteRune"):
+						if _, isC := cc.Args[1].(*ssa.Const); !isC {
+							other = true
+						}
+					}
+				})
+			}
+			okSrc = nElem > 0 && !other
+		}
+		c.check(okSrc, name, "the list is computed for this request on this container", p.pos(fn.Pos()), "the elements of c.computeAllowedMethods(req), joined", "the list is not the allowed methods of this request's URL on the filter's container")
 	}
 }
 
@@ -340,24 +390,43 @@ func summariseAcceptance(p *Program, fn *ssa.Function) *acceptanceSummary {
 		if !dep {
 			return
 		}
-		unconditional := true
+		// per path from the route match to the append: the constants the last group is found equal to
 		curFacts = facts[b]
-		for f := range facts[b] {
-			if k, ok := condConst(f.Cond, f.Pol); ok {
-				acc[k] = true
-				unconditional = false
+		decided := false
+		if paths, ok := enumPathsBetween(fn, s.RouteMatch.Block(), b, 400); ok && len(paths) > 0 {
+			decided = true
+			for _, pa := range paths {
+				any := true
+				for f := range pa.Facts {
+					if k, ok := condConst(f.Cond, f.Pol); ok {
+						acc[k] = true
+						any = false
+					}
+				}
+				if any {
+					acc["<any final group>"] = true
+				}
 			}
 		}
-		for _, pr := range b.Preds {
-			if iff, ok := pr.Instrs[len(pr.Instrs)-1].(*ssa.If); ok && pr.Succs[0] != pr.Succs[1] {
-				if k, ok := condConst(iff.Cond, pr.Succs[0] == b); ok {
+		if !decided {
+			unconditional := true
+			for f := range facts[b] {
+				if k, ok := condConst(f.Cond, f.Pol); ok {
 					acc[k] = true
 					unconditional = false
 				}
 			}
-		}
-		if unconditional {
-			acc["<any final group>"] = true
+			for _, pr := range b.Preds {
+				if iff, ok := pr.Instrs[len(pr.Instrs)-1].(*ssa.If); ok && pr.Succs[0] != pr.Succs[1] {
+					if k, ok := condConst(iff.Cond, pr.Succs[0] == b); ok {
+						acc[k] = true
+						unconditional = false
+					}
+				}
+			}
+			if unconditional {
+				acc["<any final group>"] = true
+			}
 		}
 		// inside a loop over services?
 		for h := b; h != nil; h = h.Idom() {
@@ -482,7 +551,47 @@ func ruleC17d(c *Ctx) {
 			c.bad(p.fname(cam), "methods are accumulated over every matching service", p.ipos(a.RouteMatch),
 				"both routers select one best WebService for a URL, this computation adds the methods of all services whose root expression matches")
 		} else {
-			c.ok(p.fname(cam), "methods come from one selected service", p.ipos(a.RouteMatch), "no accumulation across services")
+			// ... and that one service is the router's choice for this request
+			why := ""
+			nsvc := 0
+			for _, fn := range withClosures(a.Fn) {
+				eachInstr(fn, func(i ssa.Instruction) {
+					call, ok := i.(*ssa.Call)
+					if !ok || calleeName(&call.Call) != "(*regexp.Regexp).FindStringSubmatch" || matcherLevel(call.Call.Args[0]) != "service" {
+						return
+					}
+					nsvc++
+					b, _, _ := fieldLoad(strip(call.Call.Args[0]))
+					svc, _, _ := fieldLoad(strip(b))
+					fromRouter := false
+					for _, src := range p.sources(svc, provDefault) {
+						if ex, ok := src.(*ssa.Extract); ok && ex.Index == 0 {
+							if sc, ok := ex.Tuple.(*ssa.Call); ok && sc.Call.IsInvoke() && sc.Call.Method.Name() == "SelectRoute" {
+								if _, ok := fieldLoadIs(sc.Call.Value, "Container", "router"); ok {
+									fromRouter = true
+								}
+							}
+						}
+						// the module routers' own detection functions
+						if sc, ok := src.(*ssa.Call); ok && sc.Call.StaticCallee() != nil {
+							if n := sc.Call.StaticCallee().Name(); n == "detectWebService" || n == "detectDispatcher" {
+								fromRouter = true
+							}
+						}
+						if ex, ok := src.(*ssa.Extract); ok && ex.Index == 0 {
+							if sc, ok := ex.Tuple.(*ssa.Call); ok && sc.Call.StaticCallee() != nil && sc.Call.StaticCallee().Name() == "detectDispatcher" {
+								fromRouter = true
+							}
+						}
+					}
+					if !fromRouter {
+						why = "the service whose routes are listed at " + p.ipos(call) + " is not the one the container's router selects for the request"
+					}
+				})
+			}
+			c.check(why == "" && nsvc > 0, p.fname(cam), "methods come from the one service the router selects", p.ipos(a.RouteMatch),
+				"no accumulation across services; the service is result #0 of c.router.SelectRoute for this request (or of the router's detection function)",
+				"both routers dispatch a URL to one best WebService: "+why)
 		}
 	}
 	// the computation reads services through the locking accessor
@@ -492,7 +601,36 @@ func ruleC17d(c *Ctx) {
 			viaReg = true
 		}
 	})
-	c.check(viaReg, p.fname(cam), "services are read through the locking accessor", p.pos(cam.Pos()), "RegisteredWebServices()", "the service list is read without the accessor")
+	how := "RegisteredWebServices()"
+	if !viaReg {
+		// ... or directly, holding the lock of the list at every load (C12.a decides the discipline of other fields)
+		li := p.lockInfo()
+		n, locked := 0, true
+		for _, a := range p.fieldAccesses(cam) {
+			if a.Kind != "load" || a.Owner != "Container" {
+				continue
+			}
+			// the list itself, or a copy of it that every mutator keeps in step (C11.l)
+			if a.Field.Name() != "webServices" && !p.derivedState().inStepBy[stateLoc{f: a.Field}] {
+				continue
+			}
+			n++
+			held := false
+			for _, m := range mutableFields(p, li) {
+				if m.Field == a.Field && m.Lock != nil && li.heldAt(a.Instr)[m.Lock] != lockNone {
+					held = true
+				}
+			}
+			if !held {
+				locked = false
+			}
+		}
+		if n > 0 && locked {
+			viaReg = true
+			how = "every load of Container.webServices (or of a copy kept in step with it) holds its lock"
+		}
+	}
+	c.check(viaReg, p.fname(cam), "services are read through the locking accessor", p.pos(cam.Pos()), how, "the service list is read without the accessor and without its lock")
 }
 
 func quoteAll(in []string) string {
